@@ -180,7 +180,29 @@ def _observe_heap(case):
     return {"heapq": {"heaps": heaps, "outs": outs}, "async": {"out": ["exhausted"], "vis": [["yield", ["i", 1]]] if case["ops"] else []}}
 
 
+def _observe_accinit(case):
+    """accumulate(..., initial=None): for itertools `None` means "no initial value" (it is the parameter's default)"""
+    import itertools as _it
+    from world import asyncstdlib, drive
+    items = case["items"]
+    fn = (lambda a, b: (a or 0) + b)
+
+    async def collect():
+        return [x async for x in asyncstdlib.accumulate(list(items), fn, initial=None)]
+    res = drive(collect())
+    got = ["raised", type(res.exc).__name__] if res.exc is not None else ["items", res.value]
+    try:
+        want = ["items", list(_it.accumulate(list(items), fn, initial=None))]
+    except Exception as exc:  # noqa: BLE001
+        want = ["raised", type(exc).__name__]
+    if not items and want == ["items", []]:
+        want = ["raised", "TypeError"]       # the documented deviation: empty input without an initial value
+    return {"got": got, "want": want, "async": {"out": ["exhausted"], "vis": []}}
+
+
 def observe(case):  # noqa: F811
+    if case.get("family") == "accinit":
+        return _observe_accinit(case)
     if case.get("family") == "heap":
         return _observe_heap(case)
     if case.get("family") == "tee":
@@ -190,6 +212,8 @@ def observe(case):  # noqa: F811
 
 
 def model_request(case):  # noqa: F811
+    if case.get("family") == "accinit":
+        return None
     if case.get("family") == "heap":
         return {"m": "heap", "init": case["init"], "ops": case["ops"], "div": case["div"]}
     if case.get("family") == "tee":
@@ -198,6 +222,8 @@ def model_request(case):  # noqa: F811
 
 
 def features(case, obs):  # noqa: F811
+    if case.get("family") == "accinit":
+        return ["tool=accumulate", "accinit"]
     if case.get("family") == "heap":
         return ["tool=heapq", "heap:ops=%d" % min(len(case["ops"]), 9), "heap:div=%d" % case["div"]]
     if case.get("family") == "tee":
@@ -206,6 +232,8 @@ def features(case, obs):  # noqa: F811
 
 
 def cases(tier, rng):
+    for items in ([], [1], [1, 2, 3]):
+        yield {"tool": "accumulate", "family": "accinit", "items": items, "srcs": [], "params": {}, "fns": [], "cons": {"fin": "exhaust"}}
     yield from _tee_cases(tier)
     yield from _heap_cases(tier, rng)
     yield from s1.base_cases(tier, rng, s1.KINDS_ALL, s1.cons_exhaust, tools_subset=s1.ITER_TOOLS, maxlen=4 if tier == "quick" else 5)
@@ -228,6 +256,10 @@ def judge(case, obs, model):
             k = next((i for i, (a, b) in enumerate(zip(model["heaps"], obs["heapq"]["heaps"])) if a != b), None)
             return [Issue("B", {"first_diff_at_op": k, "heapq": obs["heapq"], "model": model})]
         return []
+    if case.get("family") == "accinit":
+        if obs["got"] != obs["want"]:
+            issues.append(Issue("oracle", {"asyncstdlib": obs["got"], "itertools": obs["want"]}, "accumulate-initial-none-is-a-value"))
+        return issues
     if case.get("family") == "tee":
         a, b = obs["tee_async"], obs["tee_sync"]
         if a.get("list_iters", 0) > 1:
